@@ -17,7 +17,7 @@ MANIFEST = {
             'each of the six canonical mutation sites of the engine, generation bump before removal in all three invalidators, '
             'conditional store (generation re-checked under the cache write lock, taken before the tier searches), k and scope '
             'guards on both hit paths, scope = hash(tenant index, namespace, filter), reverse-index pairing. Necessary conditions; '
-            'the f32 pruning bound of invalidate_for_insert and the interleavings are not decided.',
+            'the f32 pruning bound of invalidate_for_insert and the interleavings are not decided. The insert-time invalidation bound compares the same distance scale as the cached results (unit analysis shared with C06.R5).',
     'design_ref': 'DESIGN.md §4.7',
     'note': 'Trusted base: rustc MIR, must-effect summaries over the call graph, path-sensitive exploration with marked '
             'invalidation calls, lock-state dataflow.',
@@ -379,4 +379,7 @@ def run(ctx, prog):
     src = flow.render(io.of_operand(rm[0].args[1])) if rm else ''
     ctx.inst('C07.R5', idoc.short, 'removes the keys taken from doc_to_query_keys[doc_id]', 'QueryCacheState.doc_to_query_keys' in src and 'arg:doc_id' in src,
              'removed keys originate from: %s' % src[:200])
+    # ------------------------------------------------------------------ R6 the insert-time bound compares like with like
+    from rules import C06 as _c06
+    _c06.distance_scales(ctx, prog, 'C07.R6')
     ctx.stat('functions_analysed', len(set(i['key'].split(' | ')[1] for i in ctx.instances)))
